@@ -206,6 +206,20 @@ def events(nitems):
         def set_beyond(t, it, a=a):
             t[len(t) + 5] = it[a]
         ev.append(('set[len+5]=%d' % a, set_beyond))
+    # the new items arrive as a one-shot iterator / generator / tuple: a plain list takes any iterable, once
+    def setslice_iter(t, it):
+        t[0:1] = iter([it[0], it[nitems - 1]])
+
+    def setslice_gen(t, it):
+        t[1:] = (x for x in (it[nitems - 1],))
+
+    def extend_iter(t, it):
+        t.extend(iter([it[0]]))
+
+    def iadd_tuple(t, it):
+        t += (it[0],)
+    ev += [('set[0:1]=iter(0,last)', setslice_iter), ('set[1:]=gen(last)', setslice_gen),
+           ('extend(iter(0))', extend_iter), ('iadd(tuple(0))', iadd_tuple)]
     ev.append(('pop()', lambda t, it: t.pop()))
     ev.append(('pop(0)', lambda t, it: t.pop(0)))
 
